@@ -3,7 +3,8 @@ package main
 // Table `ParamStyles` (C04): the (in, style, explode) combinations accepted by Parameter.Validate — the case
 // list of its `switch { case parameter.In == … && sm.Style == … && [!]sm.Explode, … : smSupported = true }`
 // — and the defaults of Parameter.SerializationMethod (per `in`: default style, default explode).
-// Constants are resolved to their string values through go/types. Any case expression or default
+// Likewise the (style, explode) lists of Header.Validate and Encoding.Validate with the defaults of their
+// SerializationMethod. Constants are resolved to their string values through go/types. Any case expression or default
 // assignment of another shape becomes an `unrecognised` entry.
 
 import (
@@ -175,6 +176,144 @@ func extractParamStyles(repo string) (string, error) {
 	if hfound != 2 || !haveHdrStyle || !haveHdrExplode {
 		unrec = append(unrec, fmt.Sprintf("header.go: expected the smSupported assignment and SerializationMethod with defaults, found %d", hfound))
 	}
+	// Encoding.Validate: `switch { case sm.Style == X && [!]sm.Explode, …: default: return … }` (the cases with an
+	// empty body are the supported ones) and Encoding.SerializationMethod: `sm := &SerializationMethod{Style: X, Explode: b}`
+	var erows []hrow
+	encDefaultStyle, encDefaultExplode, haveEncDefault := "", false, false
+	efound := 0
+	for _, f := range pkg.Syntax {
+		fn := pkg.Fset.Position(f.Pos()).Filename
+		if !strings.HasSuffix(fn, "/encoding.go") {
+			continue
+		}
+		where := func(n ast.Node) string { return fmt.Sprintf("encoding.go:%d", pkg.Fset.Position(n.Pos()).Line) }
+		for _, d := range f.Decls {
+			fd, ok := d.(*ast.FuncDecl)
+			if !ok || fd.Recv == nil || fd.Body == nil || descTypeName(info.TypeOf(fd.Recv.List[0].Type)) != "Encoding" {
+				continue
+			}
+			switch fd.Name.Name {
+			case "Validate":
+				ast.Inspect(fd.Body, func(n ast.Node) bool {
+					sw, ok := n.(*ast.SwitchStmt)
+					if !ok || sw.Tag != nil {
+						return true
+					}
+					efound++
+					sawDefault := false
+					for _, cl := range sw.Body.List {
+						cc := cl.(*ast.CaseClause)
+						if cc.List == nil {
+							// default: must end in a return of a non-nil error
+							sawDefault = true
+							okDefault := false
+							if len(cc.Body) > 0 {
+								if ret, ok := cc.Body[len(cc.Body)-1].(*ast.ReturnStmt); ok && len(ret.Results) == 1 {
+									if id, isId := ret.Results[0].(*ast.Ident); !isId || id.Name != "nil" {
+										okDefault = true
+									}
+								}
+							}
+							if !okDefault {
+								unrec = append(unrec, where(cc)+" (default of the style switch does not return an error)")
+							}
+							continue
+						}
+						if len(cc.Body) != 0 {
+							unrec = append(unrec, where(cc)+" (supported-style case with a body)")
+							continue
+						}
+						for _, e := range cc.List {
+							var r hrow
+							okAll, haveStyle, haveExpl := true, false, false
+							var conj func(y ast.Expr)
+							conj = func(y ast.Expr) {
+								switch b := y.(type) {
+								case *ast.ParenExpr:
+									conj(b.X)
+								case *ast.BinaryExpr:
+									if b.Op == token.LAND {
+										conj(b.X)
+										conj(b.Y)
+										return
+									}
+									if b.Op == token.EQL {
+										if sel, ok := b.X.(*ast.SelectorExpr); ok && sel.Sel.Name == "Style" {
+											if v, ok := strConst(b.Y); ok {
+												r.style, haveStyle = v, true
+												return
+											}
+										}
+									}
+									okAll = false
+								case *ast.UnaryExpr:
+									if sel, ok := b.X.(*ast.SelectorExpr); ok && b.Op == token.NOT && sel.Sel.Name == "Explode" {
+										r.explode, haveExpl = false, true
+										return
+									}
+									okAll = false
+								case *ast.SelectorExpr:
+									if b.Sel.Name == "Explode" {
+										r.explode, haveExpl = true, true
+										return
+									}
+									okAll = false
+								default:
+									okAll = false
+								}
+							}
+							conj(e)
+							if okAll && haveStyle && haveExpl {
+								erows = append(erows, r)
+							} else {
+								unrec = append(unrec, where(e))
+							}
+						}
+					}
+					if !sawDefault {
+						unrec = append(unrec, where(sw)+" (style switch without default)")
+					}
+					return true
+				})
+			case "SerializationMethod":
+				efound++
+				ast.Inspect(fd.Body, func(m ast.Node) bool {
+					cl, ok := m.(*ast.CompositeLit)
+					if !ok || haveEncDefault {
+						return true
+					}
+					st, ex, hs, he := "", false, false, false
+					for _, el := range cl.Elts {
+						kv, ok := el.(*ast.KeyValueExpr)
+						if !ok {
+							continue
+						}
+						k, _ := kv.Key.(*ast.Ident)
+						if k == nil {
+							continue
+						}
+						if k.Name == "Style" {
+							if v, ok := strConst(kv.Value); ok {
+								st, hs = v, true
+							}
+						}
+						if k.Name == "Explode" {
+							if b, ok := kv.Value.(*ast.Ident); ok && (b.Name == "true" || b.Name == "false") {
+								ex, he = b.Name == "true", true
+							}
+						}
+					}
+					if hs && he {
+						encDefaultStyle, encDefaultExplode, haveEncDefault = st, ex, true
+					}
+					return true
+				})
+			}
+		}
+	}
+	if efound != 2 || !haveEncDefault {
+		unrec = append(unrec, fmt.Sprintf("encoding.go: expected the style switch of Validate and SerializationMethod with a default literal, found %d", efound))
+	}
 	for _, f := range pkg.Syntax {
 		fn := pkg.Fset.Position(f.Pos()).Filename
 		if !strings.HasSuffix(fn, "/parameter.go") {
@@ -322,7 +461,7 @@ func extractParamStyles(repo string) (string, error) {
 	sort.SliceStable(dfls, func(i, j int) bool { return dfls[i].in < dfls[j].in })
 	var b strings.Builder
 	b.WriteString("-- GENERATED by go/cmd/extract (table ParamStyles) from the repository under test. Do not edit.\n")
-	fmt.Fprintf(&b, "-- rows: %d\n", len(rows)+len(dfls)+len(hrows)+1+len(unrec))
+	fmt.Fprintf(&b, "-- rows: %d\n", len(rows)+len(dfls)+len(hrows)+1+len(erows)+1+len(unrec))
 	b.WriteString("namespace KinModel.Gen\n\n/-- (in, style, explode) accepted by Parameter.Validate -/\ndef paramStyles : List (String × String × Bool) := [\n")
 	for i, r := range rows {
 		sep := ","
@@ -347,6 +486,14 @@ func extractParamStyles(repo string) (string, error) {
 		fmt.Fprintf(&b, "(%q, %v)", r.style, r.explode)
 	}
 	fmt.Fprintf(&b, "]\n\n/-- Header.SerializationMethod defaults -/\ndef headerStyleDefault : String × Bool := (%q, %v)\n", hdrDefaultStyle, hdrDefaultExplode)
+	b.WriteString("\n/-- (style, explode) accepted by Encoding.Validate -/\ndef encodingStyles : List (String × Bool) := [")
+	for i, r := range erows {
+		if i > 0 {
+			b.WriteString(", ")
+		}
+		fmt.Fprintf(&b, "(%q, %v)", r.style, r.explode)
+	}
+	fmt.Fprintf(&b, "]\n\n/-- Encoding.SerializationMethod defaults -/\ndef encodingStyleDefault : String × Bool := (%q, %v)\n", encDefaultStyle, encDefaultExplode)
 	b.WriteString("\ndef paramStylesUnrecognised : List String := [")
 	for i, u := range unrec {
 		if i > 0 {
